@@ -416,15 +416,19 @@ PROPS["C12"] = {
 
 # ------------------------------------------------------------------------------------------------
 PROPS["C10"] = {
-    "inject": [("src/armor/writer.rs", "c10_armor"), ("src/base64/reader.rs", "c10_b64")],
+    "substitutions": [("src/base64/decoder.rs", "const BUF_SIZE: usize = 1024;", "const BUF_SIZE: usize = 16;")],
+    "inject": [("src/armor/writer.rs", "c10_armor"), ("src/base64/reader.rs", "c10_b64"), ("src/armor/reader.rs", "c10_dearmor")],
     "mem_gb": 12,
-    "level_text": "Bounded model checking of the checksum path of the armor writer: the table-driven CRC-24 the writer uses equals the "
-                  "bitwise RFC 9580 6.1.1 algorithm for every data of the stated lengths and any chunking, and the footer carries its base64.",
-    "level_note": "Bounds: data 0..3 octets (CRC is a byte-wise fold, the step is what is checked). The dearmorer (nom parsers, BufReader, "
-                  "Base64Decoder over BytesMut) is not decidable with Kani; its CRC defect F5 is recorded from native testing.",
-    "bounds": "data 0..3 octets; one split",
-    "outside": "body line wrapping and base64 of the body; the whole reader side; header maps; block types other than MESSAGE",
-    "assumptions": [FMT_STUBS],
+    "level_text": "Bounded model checking of the checksum path of the armor writer (table-driven CRC-24 == bitwise RFC 9580 6.1.1 algorithm for every "
+                  "data of the stated lengths and any chunking), of the dearmorer's first stage (Base64Reader == unfragmented reference for every source "
+                  "and fragmentation) and of its checksum decision (real read_body + crc24_status for every 24-bit footer value).",
+    "level_note": "Bounds: CRC data 0..3 octets (byte-wise fold, the step is what is checked); Base64Reader sources <= 5 (8) octets; checksum decision on two "
+                  "concrete bodies x all 2^24 footer values with the base64 engine modelled. Known finding F5 (calculated CRC never updated) is reported by "
+                  "c10_dearmor_crc_decision* as KNOWN-FINDING. Not covered: armor header/footer nom parsers, Base64Decoder's engine, body line wrapping, "
+                  "header maps, tolerant-whitespace rules.",
+    "bounds": "CRC data 0..3 octets, one split; Base64Reader N<=8 x all splits; checksum decision 2 bodies x 2^24 footers",
+    "outside": "body line wrapping and base64 of the body; armor header/footer parsers and tolerant reading; header maps; block types",
+    "assumptions": [FMT_STUBS, "c10_dearmor_*: base64::decoder::try_decode_engine_slice (the `base64` crate's engine) replaced by an RFC 4648 model for unpadded quanta; Base64Decoder's BUF_SIZE scaled 1024 -> 16 in the checked copy (buffer_redux zeroes the whole buffer in a loop)"],
     "harnesses": [
         H("c10_crc24_%d" % l, "c10_armor", "quick" if l in (1, 2) else "thorough", 600, "Crc24Hasher over every %d-octet data == bitwise RFC CRC-24" % l, ["crc24::Crc24Hasher::{new,write,finish}"], "L=%d" % l) for l in range(4)
     ] + [
@@ -434,6 +438,12 @@ PROPS["C10"] = {
           "Base64Reader::read over every %d-octet source x every 2-chunk fragmentation, %d-octet destination: tokens = unfragmented reference (CR/LF skipped, stop at first foreign octet), consumed prefix independent of the fragmentation" % nm,
           ["base64::Base64Reader::{new,read,into_inner}", "base64::reader::is_base64_token"], "N=%d octets (all values), split 0..N, destination %d" % nm)
         for nm in [(2, 2), (3, 3), (4, 2), (4, 4), (5, 4), (6, 6), (8, 4)]
+    ] + [
+        H("c10_dearmor_crc_decision" + sfx, "c10_dearmor", "quick", 900,
+          "real Dearmor::read_body over one body of %s then crc24_status() with CRC checking on, for EVERY 24-bit footer value: CheckedOk iff footer == RFC CRC-24 of the decoded data (fails with known finding F5 on the unchanged tree)" % what,
+          ["armor::reader::Dearmor::{read_body,crc24_status}", "base64::Base64Decoder::read", "base64::Base64Reader::read", "crc24::Crc24Hasher"],
+          "body concrete (%s), footer checksum symbolic (2^24 values)" % what)
+        for sfx, what in [("", "'AAAA'"), ("_b", "'SGVsbG8h'")]
     ],
 }
 
